@@ -3,9 +3,11 @@
 // One input line is one whole history over K SBuf variables:
 //     s <K> <alloc> <op> <op> ...          alloc: x = memAllocBuf returns exactly the requested size,
 //                                                 c = rounded up to the size classes given by --classes=a,b,c,...
+//                                          (a process serves one policy: `c` lines when started with --classes, else `x`)
 // Every op is one comma separated token (numbers decimal, byte strings hex, '-' = empty); see `applyOp` below.
 // One output line: per op  <result>|<i>=<hex>,...|<v0>:<v1>:...#<b0>:<b1>:...   joined by single spaces
 //     result    value of the call, `ok`, or `throw` (an exception left the SBuf method)
+//     the second field is `corrupt` (and the line ends) when some object's off_+len_ exceeds its blob's size
 //     i=hex     contents (toStdString) of every variable whose contents differ from before the op
 //     v         blob.off.len of every variable; blob 0 = the prototype store, others numbered by first appearance
 //     b         size.cap.refs of every blob named in v (in number order)
@@ -247,9 +249,14 @@ static std::string runLine(const std::string &line)
     uint64_t K;
     if (toks.size() < 3 || toks[0] != "s" || !num(toks[1], K) || K < 1 || K > 6 || (toks[2] != "x" && toks[2] != "c"))
         return "bad-op";
-    g_use_classes = toks[2] == "c";
+    // the prototype store (a function-local static of SBuf) is allocated once per process: one process per policy
+    if ((toks[2] == "c") != g_use_classes)
+        return "wrong-alloc-mode";
     std::string out;
     {
+        // every line starts from the state of a fresh process: no SBuf exists here, so emptying the prototype
+        // store (public MemBlob API) only forgets bytes that earlier lines left in it
+        SBuf::GetStorePrototype()->clear();
         std::vector<SBuf> v(K);
         std::vector<std::string> before(K);
         for (size_t t = 3; t < toks.size(); ++t) {
@@ -266,6 +273,13 @@ static std::string runLine(const std::string &line)
             }
             if (!out.empty()) out += ' ';
             out += res; out += '|';
+            // an object whose area leaves the used part of its blob cannot be observed (and ends the history)
+            bool corrupt = false;
+            for (unsigned i = 0; i < K; ++i) {
+                const uint64_t end = static_cast<uint64_t>(v[i].off_) + v[i].len_;
+                if (end > v[i].store_->size || v[i].store_->size > v[i].store_->capacity) corrupt = true;
+            }
+            if (corrupt) { out += "corrupt|" + internals(v); return out; }
             bool first = true;
             for (unsigned i = 0; i < K; ++i) {
                 const std::string now = v[i].toStdString();
@@ -285,8 +299,9 @@ int main(int argc, char **argv)
             printf("maxSize %u\nnpos %u\nbits %zu\n", SBuf::maxSize, SBuf::npos, sizeof(SBuf::size_type) * 8);
             return 0;
         }
-        if (!strncmp(argv[i], "--classes=", 10)) {
+        if (!strncmp(argv[i], "--classes=", 10)) {   // serve `s <K> c ...` lines with these size classes (else: `x` lines)
             for (const auto &c : split(argv[i] + 10, ',')) { uint64_t x; if (num(c, x)) g_classes.push_back(x); }
+            g_use_classes = true;
         }
     }
     std::string line;
